@@ -32,7 +32,12 @@ signal.alarm(10)
 try:
     res = logistic().simulate(algorithm="simulate", seed=0, features=["Y0", "Y1"], visit_parameters=dict(DESIGN, distance_visit_mean=-1))
     print("completed,", len(res.data.to_dataframe()), "visits")
-except TimeoutError:
+except Exception as e:
+    if type(e).__name__ == "LeaspyAlgoInputError":
+        print("design refused before anything is generated:", e)
+        sys.exit(0)
+    if not isinstance(e, TimeoutError):
+        raise
     print("DEFECT: distance_visit_mean=-1, distance_visit_std=0.2 accepted; visit generation still running after 10 s")
     sys.exit(1)
 finally:
